@@ -213,6 +213,17 @@ def run(tier):
         few = {z: data[z] for z in sorted(data)[:8]}
         render_and_read_back(v, few, work, tot, has_valid_abbrev=False, has_valid_dst=False, tag="render-flags-off")
         render_and_read_back(v, few, work, tot, has_valid_abbrev=False, has_valid_dst=True, tag="render-abbrev-off")
+        # java.time's short display names are not bounded by the six characters of a TZ database abbreviation ("GMT-03:00"
+        # for zones without a localized name): strings of any length are carried as they are
+        longab = {}
+        for zi, z in enumerate(sorted(few)):
+            longab[z] = []
+            for k, it in enumerate(few[z]):
+                it2 = dict(it)
+                it2["abbrev"] = ("GMT%+03d:00" % (it["total_offset"] // 3600)) if k % 3 else ("X" * (7 + (k + zi) % 9))
+                longab[z].append(it2)
+                tot["rendered_items_with_long_abbreviations"] = tot.get("rendered_items_with_long_abbreviations", 0) + 1
+        render_and_read_back(v, longab, work, tot, has_valid_abbrev=False, has_valid_dst=True, tag="render-long-abbrev")
     # items with negative and positive sub-minute offsets (pytz rounds to minutes, dateutil does not): years before the zones
     # moved to whole minutes, collected by the real dateutil generator and rendered
     try:
